@@ -4,6 +4,7 @@ import AnySyncModel.Driver.StreamPool
 import AnySyncModel.Driver.OCache
 import AnySyncModel.Driver.Deletion
 import AnySyncModel.Driver.Tree
+import AnySyncModel.Driver.Sync
 /-!
 `modeld <area>`: reads one operation per line on stdin, prints exactly one line per operation.
 Stateless areas expose `step : String → String`; stateful areas expose
@@ -36,4 +37,5 @@ def main (args : List String) : IO UInt32 := do
   | ["ocache"] => loopState stdin stdout Driver.OCache.step Driver.OCache.init; return 0
   | ["deletion"] => loopState stdin stdout Driver.Deletion.step Driver.Deletion.init; return 0
   | ["tree"] => loopPure stdin stdout Driver.Tree.step; return 0
+  | ["sync"] => loopState stdin stdout Driver.Sync.step none; return 0
   | _ => IO.eprintln s!"modeld: unknown area {args}"; return 2
